@@ -13,6 +13,7 @@
  */
 #include <inttypes.h>
 #include <pthread.h>
+#include <fenv.h>
 #include <stdio.h>
 #include <stdlib.h>
 #include <string.h>
@@ -164,8 +165,22 @@ static void trial_func(void *vp)
         /* what a trial can see of the library's thread-local state before it has set anything up
          * itself: this must not depend on what ran earlier on this worker thread */
         const double clock_at_entry = cmb_time();
-        const uint64_t entry_obs = vx_hash_bytes(41, &clock_at_entry, sizeof clock_at_entry)
-                                   ^ (uint64_t)(cmb_process_current() != NULL);
+        uint64_t entry_obs = vx_hash_bytes(41, &clock_at_entry, sizeof clock_at_entry)
+                             ^ (uint64_t)(cmb_process_current() != NULL);
+        /* ... nor may the arithmetic a trial sees depend on the thread it runs on: rounding mode,
+         * flush-to-zero / denormals-are-zero, and what a computation that passes through the subnormal
+         * range actually yields (exception masks are not results and are left out) */
+        {
+            const unsigned csr = __builtin_ia32_stmxcsr() & 0xE040u;
+            volatile double tiny = 1e-300, third = 1.0;
+            tiny *= 1e-10;              /* subnormal unless flushed */
+            tiny *= 1e10;
+            third /= 3.0;               /* rounding-mode dependent */
+            const double a = tiny, b = third;
+            entry_obs = vx_mix(entry_obs, (uint64_t)csr * 8 + (uint64_t)(fegetround() >> 10));
+            entry_obs = vx_mix(entry_obs, vx_hash_bytes(42, &a, 8));
+            entry_obs = vx_mix(entry_obs, vx_hash_bytes(43, &b, 8));
+        }
         uint64_t result;
         switch (idx % 4) {
         case 0:
